@@ -13,4 +13,5 @@ class Check(PropertyCheck):
 
     def families(self, rng, tier):
         return [("asset.assert_sent_native_token_balance", fam_guards.sent_native_cases(rng, tier)),
-                ("world.funds_matrix", fam_world.funds_matrix(rng, tier)), ("world.general", fam_world.general_histories(rng, tier, n_hist={"quick": 5, "thorough": 50}[tier]))]
+                ("world.funds_matrix", fam_world.funds_matrix(rng, tier)), ("world.general", fam_world.general_histories(rng, tier, n_hist={"quick": 5, "thorough": 50}[tier])),
+                ("world.lookalike", fam_world.lookalike_histories(rng, tier))]
